@@ -86,8 +86,8 @@ func buildModule(s ModSpec) []byte {
 	// ---- memory ----
 	if s.ImpMem < 0 {
 		m.Mems = []wenc.Limits{{Min: 1, Max: 3, HasMax: true}}
-		m.Exports = append(m.Exports, wenc.Export{Name: "mem", Kind: wenc.ExtMemory, Idx: 0})
 	}
+	m.Exports = append(m.Exports, wenc.Export{Name: "mem", Kind: wenc.ExtMemory, Idx: 0}) // own or re-exported imported memory
 	// ---- types used by call_indirect ----
 	t0 := m.AddType(t0p, t0r)
 	t2 := m.AddType(t2p, t2r)
